@@ -33,7 +33,7 @@
 #ifndef C03_TRUTH31	/* thorough: also the truth table of the group of order 31 (8.2 M verifications) */
 #define C03_TRUTH31 C03_HEAVY
 #endif
-#ifndef C03_SKIP_ZERO	/* ASan builds: see NOTES.md (zero scalars make the current library read uninitialised stack) */
+#ifndef C03_SKIP_ZERO	/* 1: do not present zero hash integers / r / s (NOTES.md F3: they once made the library read uninitialised stack, which makes ASan runs history dependent) */
 #define C03_SKIP_ZERO 0
 #endif
 
